@@ -14,12 +14,41 @@ ASSUMPTIONS = [
 ]
 
 
+import json
+
+
+def replay_kind(c):
+    """engine name stored in a replay file written by bin/check ('intensity', 'machine', 'e2e-c08', ...)."""
+    if not c.replay:
+        return ""
+    try:
+        return str(json.load(open(c.replay)).get("engine", ""))
+    except Exception:
+        return ""
+
+
+def witness_tags(c):
+    """tags of the known findings of this property: their witnesses are run (and reported as KNOWN-FINDING)
+    only once known_findings.json lists them."""
+    tags = []
+    for e in c.kf:
+        if e.get("status") == "known":
+            tags += [t for t in e.get("match", {}).get("tags_all", []) if t not in tags]
+    return tags
+
+
 def machine(c, name, spec, premise, n_quick=1500, n_thorough=24000):
+    if c.replay and not replay_kind(c).startswith("machine"):
+        return
     n = n_quick if c.tier == "quick" else n_thorough
     if c.replay:
         out = c.harness("sup", ["machine", "-replay", c.replay])
     else:
-        out = c.harness("sup", ["machine", "-n", str(n)], timeout=900)
+        args = ["machine", "-n", str(n)]
+        w = witness_tags(c)
+        if w:
+            args += ["-witness", ",".join(w)]
+        out = c.harness("sup", args, timeout=900)
     if out:
         c.cases(name, out, IMPORTS, "mcase", corr=["corr_machine"], spec=spec, premise=premise)
     if c.broken and not c.violations and not c.replay:
@@ -32,13 +61,14 @@ def machine(c, name, spec, premise, n_quick=1500, n_thorough=24000):
             c.broken = keep + [b for b in c.broken if b not in keep]
 
 
-def e2e(c, what, n_quick, n_thorough):
-    """what: comma separated scenario families for the e2e sub-command (c08, c09, c10)."""
+def e2e(c, what, spec, premise, n_quick, n_thorough):
+    """what: scenario family of the e2e sub-command (c08, c09, c10): real node, real act.Supervisor."""
+    if c.replay and not replay_kind(c).startswith("e2e"):
+        return
     n = n_quick if c.tier == "quick" else n_thorough
     if c.replay:
         out = c.harness("sup", ["e2e", "-what", what, "-replay", c.replay], timeout=600)
     else:
-        out = c.harness("sup", ["e2e", "-what", what, "-n", str(n)], timeout=1500)
+        out = c.harness("sup", ["e2e", "-what", what, "-n", str(n)], timeout=3000)
     if out:
-        c.monitor("e2e-" + what, out)
-        c.cov["traces_validated_against_impl"] += int(out.get("stats", {}).get("runs", 0))
+        c.cases("e2e-" + what, out, IMPORTS, "ecase", corr=["corr_e2e"], spec=spec, premise=premise)
